@@ -47,7 +47,7 @@ def F(c: int, ret: str, args: Tuple[Any, ...], kwargs: Dict[str, Any]) -> Any:
     if ret == "list3":
         return [s, (s * 7 + 1) % M, s % 2 == 1]
     if ret == "dict":
-        return {"a": s, "b": s % 2 == 0}
+        return {"a": s, "b": s % 2 == 0, "items": s % 11}   # ("items" is also the name of a dict method: a key is a key)
     if ret == "str":
         return "s%d" % (s % 97)
     if ret == "none":
@@ -59,7 +59,7 @@ def F(c: int, ret: str, args: Tuple[Any, ...], kwargs: Dict[str, Any]) -> Any:
 ELEMS = {
     "tuple2": [(0, "int"), (1, "bool")],
     "list3": [(0, "int"), (1, "int"), (2, "bool")],
-    "dict": [("a", "int"), ("b", "bool")],
+    "dict": [("a", "int"), ("b", "bool"), ("items", "int")],
 }
 
 
